@@ -162,9 +162,25 @@ def run(ctx):
                     want, Uq = T.spec_verdict(la, le, o)
                 except (T.Diverges, RecursionError):
                     want, Uq = 'diverge', None
-                if exclusions and not post and want != 'diverge':
-                    # a reconstruction is only made when an exclusion actually took effect or actual is a string
-                    pass
+                if exclusions and not post and want != 'diverge' and got == 'fail':
+                    # exclusions were in force (a preprocess function was given, a line of either side was removed, or a
+                    # difference was excused): the property requires the post-processed pair
+                    la3 = la[:-1] if la and la[-1] == '' else la
+                    le3 = le[:-1] if le and le[-1] == '' else le
+                    rem3 = o['remove_lines'] or []
+                    removed_any = any(r in l for l in la3 + le3 for r in rem3)
+                    ka3 = [l for l in la3 if not any(r in l for r in rem3)]
+                    ke3 = [l for l in le3 if not any(r in l for r in rem3)]
+                    same_n = len(ka3) == len(ke3)
+                    excused_any = same_n and Uq is not None and sum(
+                        1 for a, e in zip(ka3, ke3)
+                        if T._norm(a, o['lstrip'], o['rstrip']) != T._norm(e, o['lstrip'], o['rstrip'])) > len(Uq)
+                    if o.get('preprocess') or removed_any or excused_any:
+                        # (with different numbers of kept lines and nothing removed it cannot be said here whether a
+                        # difference was excused: that case belongs to the recorded finding on different line counts)
+                        problems.append('exclusions were in force (%s) and the assertion failed, but no post-processed '
+                                        'pair is named' % ('preprocess' if o.get('preprocess') else
+                                                           'lines removed' if removed_any else 'a difference excused'))
                 if post and os.path.exists(post[0][1]) and os.path.exists(post[0][2]):
                     ba = body_of(post[0][1])
                     be = body_of(post[0][2])
@@ -253,6 +269,56 @@ def run(ctx):
                 os.remove(refp)
             for f in os.listdir(tmp):
                 os.remove(os.path.join(tmp, f))
+        # ------------------------------------------------ failure after failure into ONE temporary directory that is never
+        # cleared (as in a real test session): the files named by each message hold the content of THAT failure, also when
+        # an earlier failure left files of the same names and the same sizes
+        for it in range(30 if ctx.quick else 500):
+            refp = os.path.join(data, 'again.txt')
+            nlines = rng.randint(2, 5)
+            ref_lines = ['line %d value %03d' % (j, rng.randrange(1000)) for j in range(nlines)]
+            with open(refp, 'w', encoding='utf-8', newline='') as f_:
+                f_.write('\n'.join(ref_lines) + '\n')
+            use_ignore = rng.random() < 0.5
+            kw_ = {'ignore_substrings': ['line 0']} if use_ignore else {}
+            for step in range(rng.randint(2, 4)):
+                act_lines = list(ref_lines)
+                j = rng.randrange(nlines)
+                # same length as the reference line (and as the earlier failures): only some digits change
+                act_lines[j] = 'line %d value %03d' % (j, (int(ref_lines[j][-3:]) + 1 + rng.randrange(998)) % 1000)
+                if use_ignore:
+                    act_lines[0] = 'line 0 value %03d' % rng.randrange(1000)
+                sa = '\n'.join(act_lines) + '\n'
+                case = {'kind': 'successive failures into one temporary directory', 'step': step, 'actual': sa,
+                        'reference': '\n'.join(ref_lines) + '\n', 'ignore_substrings': kw_.get('ignore_substrings')}
+                ctx.count(('SF', it, step, sa), True)
+                ctx.bump('successive_failures')
+                try:
+                    rt.assertStringCorrect(sa, refp, **kw_)
+                    if act_lines[1:] != ref_lines[1:] or (not use_ignore and act_lines != ref_lines):
+                        ctx.fail(case, 'a differing string passed')
+                    continue
+                except Failed as ex:
+                    msg = str(ex)
+                for q, fa, fb in parse_pairs(msg):
+                    if not (os.path.exists(fa) and os.path.exists(fb)):
+                        ctx.fail(case, 'a named file does not exist: %s %s' % (fa, fb))
+                        continue
+                    if q in ('', 'raw') and fa != refp:
+                        got_ = open(fa, encoding='utf-8', newline='').read()
+                        if got_.split('\n') != act_lines:      # (content up to line ends, as in the first layer)
+                            ctx.fail(case, 'the file named as actual (%s) holds %r, the actual string of this failure is %r'
+                                     % (os.path.basename(fa), got_, sa))
+                    if q == 'post-processed':
+                        xa, xe = body_of(fa).split('\n'), body_of(fb).split('\n')
+                        diffs = [(a, e) for a, e in zip(xa, xe) if a != e]
+                        wantd = [(a, e) for k_, (a, e) in enumerate(zip(act_lines, ref_lines))
+                                 if a != e and not (use_ignore and k_ == 0)]
+                        if diffs != wantd:
+                            ctx.fail(case, 'the post-processed pair differs on %r, the unexcused differences of this failure '
+                                     'are %r' % (diffs, wantd))
+            for f in os.listdir(tmp):
+                os.remove(os.path.join(tmp, f))
+            os.remove(refp)
         # ------------------------------------------------ the actual file itself lives in the temporary directory
         # (a program under test that writes its output there), under names like the ones the library uses
         nt = 120 if ctx.quick else 2500
